@@ -223,6 +223,49 @@ def lk5(ctx, flavours):
     return out
 
 
+def lk6(ctx, flavours):
+    """weak peer handles do not leave the critical section they were read in: outside `impl Adjacent` / `impl WeakNode`, no value
+    that *owns* a WeakNode (a clone, a Vec of them) is produced -- except by `WeakNode::downgrade`, which connect() hands straight
+    to the list.  A `&WeakNode` is tied to its guard by the borrow checker; an owned copy can be upgraded after the guard is gone,
+    when a concurrent disconnect + drop may already have released the peer (upgrade() == None)."""
+    F = ctx.F
+    out = []
+
+    def owns_weak(ti, fl, seen=None):
+        seen = seen if seen is not None else set()
+        if ti in seen:
+            return False
+        seen.add(ti)
+        t = F.types[ti]
+        if t['k'] in ('ref', 'ptr', 'fnptr', 'fndef', 'closure'):
+            return False
+        if t['k'] == 'adt' and t.get('p') == fl + '::node::adjacent::WeakNode':
+            return True
+        if t['k'] == 'adt' and t.get('p') in (fl + '::node::adjacent::Adjacent', 'std::sync::RwLock', 'std::cell::RefCell', fl + '::node::Node', 'std::sync::Arc', 'std::rc::Rc',
+                                                 'std::sync::RwLockReadGuard', 'std::sync::RwLockWriteGuard', 'std::cell::Ref', 'std::cell::RefMut'):
+            return False       # the lists themselves (and what owns them) stay where they are
+        return any(owns_weak(a, fl, seen) for a in t.get('a', []))
+    for fl in flavours:
+        n = 0
+        for b in F.by_flavour(fl):
+            owner = F.bodies.get(re.sub(r'(::\{closure#\d+\})+$', '', b['q']), b)
+            if owner.get('impl_self_q') in (fl + '::node::adjacent::Adjacent', fl + '::node::adjacent::WeakNode'):
+                continue
+            bad = []
+            for bi, t in calls_in(b):
+                dl = t['dst']['l']
+                if t['dst']['p'] or not owns_weak(b['locals'][dl], fl):
+                    continue
+                n += 1
+                if callee_name(t).endswith('::WeakNode::downgrade'):
+                    continue
+                bad.append('%s at %s yields an owned %s' % (callee_name(t).split('::')[-1], t['sp'], F.types[b['locals'][dl]]['s'][:60]))
+            if bad:
+                out.append(Obl('LK6', b['q'], b['span'], 'no owned weak peer handle outside the adjacency module', False, '; '.join(bad)))
+        out.append(Obl('LK6', fl, '-', 'owned WeakNode values outside impl Adjacent / WeakNode come from downgrade() only', True, '%d producing call sites outside the adjacency module' % n))
+    return out
+
+
 def lk_try(ctx, flavours):
     """the outcome of an operation must not depend on contention: no try_read / try_write / try_lock (a failed try is reported to
     the caller as a data outcome -- 'no such edge' -- that no sequential order of the operations explains)"""
@@ -422,6 +465,36 @@ def it2(ctx, flavours):
                         orient = None
                         why.append('endpoints are (%s, %s): not {iterated node, upgraded entry peer}' % (pretty(a), pretty(bb_)))
                     ctx.cache.setdefault('it2_orient', {})[b['q']] = (orient, gets[0][1]['res'] if gets else None)
+            # a step never panics on a state that node operations can produce: the only tolerated panic is "the stored peer was
+            # dropped" (the failure outcome of upgrade(), excluded by "live nodes") and lock poisoning
+            from .core import outcome_edges as _oe
+            up_fail = []
+            for ubi, ut in calls_in(b, lambda t_: callee_name(t_).endswith('::WeakNode::upgrade')):
+                se_, fe_ = _oe(F, b, ubi)
+                if fe_:
+                    up_fail.append(fe_)
+            for pbi, pbb in enumerate(b['blocks']):
+                if pbb['cleanup'] or pbi not in cfg.reach:
+                    continue
+                pt = pbb['term']
+                site = None
+                if pt['k'] == 'assert' and not re.search(r'Overflow\(Add', pt.get('msg', '')):
+                    site = pt.get('msg', 'assert')[:40]
+                elif pt['k'] == 'call' and (PANICKY.match(callee_name(pt)) or PANICKY.match(pt['callee'])) and not callee_name(pt).startswith('std::cell::RefCell::'):
+                    nm_ = callee_name(pt)
+                    if nm_.split('::')[-1] in ('unwrap', 'expect') and pt['args']:
+                        at_ = pv.of_operand(pt['args'][0])
+                        a0_ = strip_payload(at_)
+                        if isinstance(a0_, tuple) and a0_ and a0_[0] == 'call' and (a0_[1].endswith('::WeakNode::upgrade') or a0_[1] in ACQ):
+                            continue        # upgrade().unwrap() / read().unwrap()
+                        if any(ty['k'] == 'adt' and ty['p'] == 'std::sync::PoisonError' for ty in F.ty_walk(b['locals'][pt['args'][0]['pl']['l']])) if pt['args'][0].get('k') in ('move', 'copy') else False:
+                            continue
+                    site = nm_.split('::')[-1]
+                if site is None:
+                    continue
+                if any(cfg.edge_dominates(fe_[0], fe_[1], pbi) for fe_ in up_fail):
+                    continue
+                why.append('can panic (%s at %s) although the peer is alive' % (site, pt['sp']))
             out.append(Obl('IT2', b['q'], b['span'], 'next(): one shared lock step, live entry at position, true endpoints and value', not why, '; '.join(why) if why else 'ok'))
     return out
 
